@@ -136,3 +136,24 @@ PROPS["C15"] = simple(
                "rendering of a freshly constructed markup of the same text at the same width, after arbitrary histories of other widths. Sampled.",
     level_note="Trusted: kit/term line measurement (visible character = rune, as in the code base). The fresh-instance differential uses the code under test as its own reference, so it only detects history dependence, not a wrong rendering.",
 )
+
+PROPS["C06"] = simple(
+    "verifchk/c06", "TestVerifC06", "exploration",
+    "(a) ActivityStreams-shaped JSON (posts, actors, activities, paged collections, links; embedded up to depth 3) mutated at every depth with 25 kinds of junk "
+    "(wrong types, nulls, -5, 0.5, 1e300, 2^64, empty/huge strings, 200-deep arrays, 300-deep object chains, Tombstone, unknown types, non-https references); "
+    "(b) adversarial markup in the four media types: indenting blocks nested 0..120 deep around <hr>/media/long words/paragraphs, 400..600 nested <div> (parser limit), "
+    "10..55 nested inline styles around 1.5..4 KB of text, tag soup incl. foreign content and bad character references, unclosed tags, Markdown quote/list nesting; "
+    "each document is built with pub.New and the kind-specific constructor and every Tangible/Collection/Link method is called (String/Preview at 8 (quick) / 12 "
+    "(thorough) widths from {-10..300}, SelectLink at 9 numbers incl. 0, -1, +-2^31, Parents, Children+Harvest, Media/ProfilePic/Banner/Creators/Recipients/Actor/Target, "
+    "recursively on what these return), plus Markup.Render directly. Non-trivial: every case; distinct = (class, document, widths).",
+    shards=dict(quick=16, thorough=16),
+    ulimit_v_kb=8 * 1024 * 1024,
+    floor=dict(evaluations=1500, distinct=1000, calls=50000),
+    timeout=dict(quick=900, thorough=3000),
+    technique="runtime monitor: crash / per-call stopwatch / hard watchdog / address-space limit around every public method, one logged case per document in child processes",
+    level_text="Survival and time monitors around the real constructors and every method of the resulting items: a panic (also in a background goroutine: the child dies and the "
+               "runner attributes it to the logged case), a call slower than 10 s on a document <= 4 KB, a call not returning within 30 s, or the child exceeding 8 GB of address space "
+               "is a violation. Sampled over generated hostile inputs.",
+    level_note="Trusted: the runner's attribution of a process death to the last logged case. Time bounds are wall-clock because promptness is the property (10 s is far above 'seconds'; "
+               "documents > 4 KB are checked for crashes only). Network references are non-https or absent here (no fetches); fetched worlds are exercised by C02/C07/C09.",
+)
